@@ -479,8 +479,9 @@ def check_C19(tier, ev):
                "salted instantiation, execution with caught and uncaught failures, failing instantiation, bank, block update, sudo) "
                "and checks Agree on the specification; each complete schedule is executed on two live Apps in one process: at equal "
                "positions Ok/Err, events, data bytes, code ids, checksums, contract addresses, block and the raw storage dump must "
-               "be byte-identical, and every Ok/Err must be what the specification says. The same schedules are run in a second "
-               "process and the transcript digests compared. Staking histories (two delegators on one validator, slashing, "
+               "be byte-identical, and every Ok/Err must be what the specification says. Before the two Apps are stepped, a third "
+               "application with another Api (bech32m, other prefix) runs the history in the same thread. The same schedules are "
+               "run in a second process WITHOUT that disturber and the transcript digests compared. Staking histories (two delegators on one validator, slashing, "
                "unbonding) are run on two fresh Apps under a random interleaving with the same comparison. Non-trivial = "
                "distinct (history, schedule) pairs / distinct staking histories of at least two operations.")
     ev.assumptions += ["absence of hidden inputs is observed across two instances and two processes, not proved",
@@ -492,7 +493,7 @@ def check_C19(tier, ev):
     # second process, later: same schedules, same transcripts?
     c = emit_cfg(cfg, os.path.basename(cfg)[:-4] + "_emit.cfg")
     res2, rep2 = run_tlc("mc/MC_Twin.tla", c, 600, "C19-twin-second", workers=1, coverage=False,
-                         pipe_to=[MTV, "replay", "twin", "-"])
+                         pipe_to=[MTV, "replay", "twin", "-"], env={"MTV_NO_DISTURBER": "1"})
     ev.add_report("second process", rep2, as_traces=False)
     # (TLC with one worker prints the schedules in a fixed order only per run; compare per-script digests instead of order)
     d2 = rep2["extra"].get("transcript_digest")
@@ -553,6 +554,10 @@ def check_C07(tier, ev):
     if res.violated != "WindowExact":
         raise ToolError("vacuity: WindowExact does not reject the wrapping upper bound")
     ev.runs.append({"stage": "MC_Prefixed_b3_wrap (sanity: wrapping upper bound rejected)", "violated": res.violated})
+    res, _ = run_tlc("mc/MC_Prefixed.tla", "mc/MC_Prefixed_b3_gap.cfg", 900, "C07-b3gap", expect_ok=False)
+    if res.violated != "WindowExact":
+        raise ToolError("vacuity: WindowExact does not reject reading foreign keys below the same-length upper bound")
+    ev.runs.append({"stage": "MC_Prefixed_b3_gap (sanity: unfiltered range rejected)", "violated": res.violated})
     cfgs = ["mc/MC_Prefixed_quick.cfg"] if tier == "quick" else \
         ["mc/MC_Prefixed_quick.cfg", "mc/MC_Prefixed_thorough.cfg", "mc/MC_Prefixed_deep.cfg"]
     for cfg in cfgs:
@@ -646,6 +651,69 @@ CHAIN = {
 }
 
 
+TRACE_FOCUS = {
+    "C01": ["result", "state", "panic"], "C02": ["invocation.reads", "result", "state"],
+    "C03": ["invocation.seq", "invocation.reply"], "C04": ["responses", "invocation.reply"],
+    "C05": ["invocation.info", "invocation.reads"], "C08": ["invocation.reads", "state", "views"],
+    "C10": ["invocation.reads", "views"], "C17": ["modules"],
+}
+
+
+def chain_trace_stage(ev, runs, calls):
+    """impl -> spec for the Chain layer: random larger programs executed on the real App, re-run by TLC"""
+    pid = ev.pid
+    tr = os.path.join(OUT, f"{pid}-chain-drive.ndjson")
+    rep = run_mtv(["drive", "chain", str(runs), str(calls), tr], tag=f"{pid}-chain-drive")
+    # split at run borders so that one rejected run does not hide the others
+    lines = open(tr).read().splitlines()
+    starts = [i for i, l in enumerate(lines) if l.startswith('{"ev":"reset"')] + [len(lines)]
+    nchunks = min(8, len(starts) - 1)
+    per = (len(starts) - 1 + nchunks - 1) // nchunks
+    results = []
+    import threading
+    def work(k):
+        a, b = starts[k * per], starts[min((k + 1) * per, len(starts) - 1)]
+        if a >= b:
+            return
+        part = f"{tr}.{k}"
+        with open(part, "w") as f:
+            f.write("\n".join(lines[a:b]) + "\n")
+        try:
+            results.append(validate_trace("trace/Trace_Chain.tla", "trace/Trace_Chain.cfg", part, f"{pid}-ctrace-{k}", 600) + (part,))
+        except ToolError as e:
+            results.append(e)
+    ts = [threading.Thread(target=work, args=(k,)) for k in range(nchunks)]
+    [t.start() for t in ts]
+    [t.join() for t in ts]
+    for r in results:
+        if isinstance(r, Exception):
+            raise r
+    rejected, other = 0, {}
+    for ok, res, part in results:
+        if ok:
+            os.remove(part)
+            continue
+        m = re.search(r'MISMATCH line",\s*(\d+),\s*<<\s*"([a-z.]+)"', res.log.replace("\n", " "))
+        cat = m.group(2) if m else "?"
+        if cat in TRACE_FOCUS.get(pid, []):
+            rejected += 1
+            keep = os.path.join(VIOL, f"{pid}-chaintrace-{os.path.basename(part)}")
+            os.replace(part, keep)
+            ev.violations.append((keep, {"trace_rejected_at_line": m.group(1) if m else "?", "first_difference": cat}))
+        else:
+            other[cat] = other.get(cat, 0) + 1
+            os.remove(part)
+    ev.traces += rep["runs"]
+    ev.evaluations += rep["events"]
+    ev.states += sum(r[1].distinct for r in results)
+    ev.transitions += sum(r[1].generated for r in results)
+    ev.runs.append({"stage": "chain drive + trace validation (random programs up to 11 invocations)", "runs": rep["runs"],
+                    "calls": rep["events"], "chunks": len(results), "rejected_in_focus": rejected,
+                    "rejected_out_of_focus": other})
+    if os.path.exists(tr):
+        os.remove(tr)
+
+
 def check_chain(tier, ev):
     pid = ev.pid
     c = CHAIN[pid]
@@ -664,6 +732,8 @@ def check_chain(tier, ev):
                       env={"MTV_FOCUS": c["focus"], "MTV_ALWAYS": c.get("always", "")},
                       need_features=c["need"] if name == c["cfgs"][0] else ())
     ev.exhaustive = True
+    if pid in TRACE_FOCUS:
+        chain_trace_stage(ev, 40 if tier == "quick" else 400, 25)
 
 
 # ---- staking ------------------------------------------------------------------------------------
@@ -728,6 +798,8 @@ TRACE_SPEC = {"C06": ("trace/Trace_Overlay.tla", "trace/Trace_Overlay.cfg"),
               "C07": ("trace/Trace_Prefixed.tla", "trace/Trace_Prefixed.cfg"),
               "C09": ("trace/Trace_Bank.tla", "trace/Trace_Bank.cfg"),
               "C18": ("trace/Trace_Bech32.tla", "trace/Trace_Bech32.cfg")}
+for _p in ("C01", "C02", "C03", "C04", "C05", "C08", "C10", "C17"):
+    TRACE_SPEC[_p] = ("trace/Trace_Chain.tla", "trace/Trace_Chain.cfg")
 
 
 def main():
